@@ -301,7 +301,13 @@ def impl_server(case):
             idle = 0
             for _ in range(200):
                 st['n'] = -10 ** 9
-                m = server.poll()
+                try:
+                    m = server.poll()
+                except HarnessError:
+                    raise
+                except Exception as e:  # noqa: BLE001
+                    fail = ('server-raises:' + type(e).__name__, 'PortServer.poll raised %r' % (e,))
+                    break
                 if m is None:
                     idle += 1
                     if idle >= 3 and all(not p.evs for p in peers.values()):
@@ -310,9 +316,11 @@ def impl_server(case):
                     idle = 0
                     got.append(canon.msg_ints(m))
             import mido
-            want_per_client = [[canon.msg_ints(mido.Message.from_bytes(e)) for e in walk_complete(p.delivered)] for p in peers.values()]
+            want_per_client = [] if fail is not None else [[canon.msg_ints(mido.Message.from_bytes(e)) for e in walk_complete(p.delivered)] for p in peers.values()]
             flat = sorted(x for w in want_per_client for x in map(tuple, w))
-            if sorted(map(tuple, got)) != flat:
+            if fail is not None:
+                pass
+            elif sorted(map(tuple, got)) != flat:
                 fail = ('server-lost', 'the clients delivered the complete messages %r but the server handed out %r' % (want_per_client, got))
             else:
                 for w in want_per_client:
@@ -408,7 +416,7 @@ def run(out):
     socks, raws = [], []
     cuts_total = 0
     # message lists x EVERY cut offset x a segmentation x how the peer goes away (FIN / RST); iterate to the end
-    for _ in range(25 if quick else 250):
+    for _ in range(25 if quick else 1500):
         ms = [canon.random_message(rng, sysex_max=6) for _ in range(rng.randrange(1, 5))]
         full = [b for m in ms for b in canon.std_layout(m)]
         for cut in range(len(full) + 1):
@@ -418,7 +426,7 @@ def run(out):
                 ops = rng.choice([[2], [2], [2, 1, 3], [1, 2], [0, 1, 2], [4, 2], [0, 0, 2, 3, 3]])
                 socks.append([1, 1, FUEL, len(ev)] + ev + ops)
     # the port closes first: the peer must see it; operations after close
-    for _ in range(40 if quick else 400):
+    for _ in range(40 if quick else 3000):
         ms = [canon.random_message(rng, sysex_max=4) for _ in range(rng.randrange(0, 3))]
         full = [b for m in ms for b in canon.std_layout(m)]
         ev = events(segment(rng, full), rng.choice([None, None, -2]))
@@ -429,7 +437,7 @@ def run(out):
         socks.append([1, 1, FUEL, len(ev)] + ev + ops + [1, 3])
     # arbitrary bytes (stray data bytes, undefined status bytes, real-time bytes inside messages)
     from props.parser_common import random_stream
-    for _ in range(60 if quick else 600):
+    for _ in range(60 if quick else 5000):
         stream = random_stream(rng, 40)
         ev = events(segment(rng, stream), rng.choice([-2, -3, -2, None]))
         raws.append([1, 1, FUEL, len(ev)] + ev + rng.choice([[2], [4, 2], [1, 1, 2]]))
@@ -474,7 +482,7 @@ def run(out):
                 'Results, the closed flag, the state of the descriptor, the number of sleeps and the queue are compared with the model after every operation; the oracle recomputes '
                 'the complete encodings of the stream without mido\'s parser and asks the still-open peer whether it sees the disconnect. %d streams of arbitrary bytes; %d PortServer '
                 'runs with 0-2 accepted and 0-2 waiting connections; %d format/parse and %d parse_address cases (ASCII). Non-trivial: every case; distinct by construction.'
-                % (25 if quick else 250, cuts_total, len(raws), len(servers), len(fmts), len(parses)))
+                % (25 if quick else 1500, cuts_total, len(raws), len(servers), len(fmts), len(parses)))
     out.sample({'component': COMP_SOCK, 'case': socks[3]})
     out.sample({'component': COMP_SERVER, 'case': servers[0]})
     core.kernel_crosscheck(out, [(COMP_SOCK, c) for c in rng.sample(socks, 60)] + [(COMP_PARSE, c) for c in rng.sample(parses, 40)], 'C18')
